@@ -10,7 +10,9 @@ size, the last fewer (possibly zero) bytes, independent of how the stream splits
 Protocol level (every event script): the DATA packets, in order of first transmission, are an
 initial part of the ideal packet sequence (numbers 1, 2, …, 65535, wrap, wrap+1, …) and the
 whole of it unless the transfer was aborted (client ERROR, invalid packet, retries exhausted);
-without a wrap value the sequence stops at block 65535 and an ERROR packet follows.
+without a wrap value the sequence stops at block 65535 and an ERROR packet follows. An ERROR packet
+of the server's own is no "abort" that excuses missing data: it is accepted only in answer to the
+client's abort or after the last ideal packet (`serverErrorsJustified`, `serverErrorsJustified_iff`).
 The theorems are stated for both transfer modes (`na`); C01 is the instance `na = false`.
 -/
 namespace Vinegar.C01
@@ -70,7 +72,8 @@ theorem take_isPrefixOf (l : List Bytes) (m : Nat) : (l.take m).isPrefixOf l = t
 /-- **C01 / C08 on whole transfers**: for every configuration (wrap 0, 1 or none), request,
 content, short-read pattern and event script, the model's trace passes `c01Check`: the DATA
 packets are a prefix of the ideal sequence for the negotiated block size, and all of it unless
-the trace shows an abort -/
+the trace shows an abort; the transfer is not abandoned within the retry budget; and the server sends
+an ERROR packet of its own only after the client's abort or after the whole ideal sequence -/
 theorem c01Check_runTransfer (cfg : Cfg) (hw : WrapOK cfg.wrap) (rrq : Rrq) (content : Bytes)
     (caps : List Nat) (sizeKnown : Bool) (script : List Ev) :
     c01Check rrq.netascii (negOf cfg rrq (.stream content caps sizeKnown none)).blockSize cfg.wrap
@@ -94,6 +97,8 @@ theorem c01Check_runTransfer (cfg : Cfg) (hw : WrapOK cfg.wrap) (rrq : Rrq) (con
     (transferBlocks rrq.netascii (negOf cfg rrq h).blockSize content caps) script
   obtain ⟨P', hP, hPend, hPquiet⟩ := C02.c02Check_processRequest (envOf cfg rrq h) hw (negOf cfg rrq h).oack
     ((transferBlocks rrq.netascii (negOf cfg rrq h).blockSize content caps).map some) script
+  have hquiet := noServerError_processRequest (envOf cfg rrq h) (negOf cfg rrq h).oack
+    ((transferBlocks rrq.netascii (negOf cfg rrq h).blockSize content caps).map some) 0 script
   generalize processRequest (envOf cfg rrq h) (negOf cfg rrq h).oack
     ((transferBlocks rrq.netascii (negOf cfg rrq h).blockSize content caps).map some) 0 script = pr at *
   have hwrap : (envOf cfg rrq h).wrap = cfg.wrap := rfl
@@ -128,6 +133,27 @@ theorem c01Check_runTransfer (cfg : Cfg) (hw : WrapOK cfg.wrap) (rrq : Rrq) (con
     | invalid => rw [hPend (Or.inr (Or.inl hout))]; simp [finish, runSteps, c02Step, finalOK, herr]
     | peerError => rw [hPend (Or.inr (Or.inr hout))]; simp [finish, runSteps, c02Step, finalOK]
   rw [hfinal, Bool.and_true]
+  -- the only ERROR packet of the server's own is the one of `finish`: after the client's invalid packet
+  -- (automaton in `ended`) or at the counter overflow, when the whole ideal sequence has been sent
+  have hsej : serverErrorsJustified (negOf cfg rrq h).timeout cfg.maxRetries
+      (idealPackets cfg.wrap 0 (transferBlocks rrq.netascii (negOf cfg rrq h).blockSize content caps))
+      (runTransfer cfg rrq h script) = true := by
+    unfold serverErrorsJustified
+    rw [hrun, errorsJustifiedFrom_append _ _ _ _ pr.obs .idle P' [] hquiet hP2]
+    cases hout : pr.out with
+    | completed => simp [finish, errorsJustifiedFrom, isServerError, c02Step]
+    | gaveUp => simp [finish, errorsJustifiedFrom, isServerError, c02Step]
+    | peerError => simp [finish, errorsJustifiedFrom, isServerError, c02Step]
+    | invalid =>
+      rw [hPend (Or.inr (Or.inl hout))]
+      simp [finish, errorsJustifiedFrom, isServerError, isEnded, c02Step, herr]
+    | overflow =>
+      have hall : dedupAdj (clientData pr.obs) =
+          idealPackets cfg.wrap 0 (transferBlocks rrq.netascii (negOf cfg rrq h).blockSize content caps) := by
+        rw [← h2 (Or.inr hout)]; exact h1
+      simp [finish, errorsJustifiedFrom, isServerError, c02Step, herr, hall]
+    | readFault => exact absurd hout h3
+  rw [hsej, Bool.and_true]
   have hended : (pr.out = .gaveUp ∨ pr.out = .invalid ∨ pr.out = .peerError) →
       sawAbort (negOf cfg rrq h).timeout cfg.maxRetries (runTransfer cfg rrq h script) = true := by
     intro hc
@@ -156,7 +182,105 @@ theorem complete_unless_aborted (cfg : Cfg) (hw : WrapOK cfg.wrap) (rrq : Rrq) (
   have h := c01Check_runTransfer cfg hw rrq content caps sizeKnown script
   unfold c01Check at h
   simp only [hna, Bool.false_or, Bool.and_eq_true, beq_iff_eq] at h
-  exact h.1.2
+  exact h.1.1.2
+
+/-! ### the server's own ERROR packets -/
+
+theorem isServerError_iff (o : Obs) :
+    isServerError o = true ↔ ∃ t p, o = Obs.send t 0 p ∧ isFlow p = false := by
+  cases o with
+  | send t dst p =>
+    simp only [isServerError, Bool.and_eq_true, beq_iff_eq, Bool.not_eq_true', Obs.send.injEq]
+    constructor
+    · rintro ⟨hd, hp⟩; exact ⟨t, p, ⟨rfl, hd, rfl⟩, hp⟩
+    · rintro ⟨t', p', ⟨_, hd, hp⟩, hf⟩; exact ⟨hd, hp ▸ hf⟩
+  | _ => simp [isServerError]
+
+theorem isEnded_iff (ph : Phase) : isEnded ph = true ↔ ph = .ended := by
+  cases ph <;> simp [isEnded]
+
+theorem errorsJustifiedFrom_iff (T R : Nat) (ideal : List Bytes) :
+    ∀ (tr : List Obs) (ph0 : Phase) (sentRev : List Bytes),
+      errorsJustifiedFrom T R ideal ph0 sentRev tr = true ↔
+        ∀ pre t p post ph, tr = pre ++ Obs.send t 0 p :: post → isFlow p = false →
+          runSteps (c02Step T R) ph0 pre = some ph →
+          ph = .ended ∨ dedupAdj (sentRev.reverse ++ clientData pre) = ideal := by
+  intro tr
+  induction tr with
+  | nil =>
+    intro ph0 sentRev
+    simp [errorsJustifiedFrom]
+  | cons o rest ih =>
+    intro ph0 sentRev
+    have hcd : ∀ l, clientData (o :: l) = clientData [o] ++ clientData l := fun l => clientData_append [o] l
+    constructor
+    · intro h pre t p post ph htr hflow hrun
+      simp only [errorsJustifiedFrom, Bool.and_eq_true, Bool.or_eq_true, Bool.not_eq_true', beq_iff_eq] at h
+      cases pre with
+      | nil =>
+        simp only [List.nil_append, List.cons.injEq] at htr
+        simp only [runSteps, Option.some.injEq] at hrun
+        subst hrun
+        have hse : isServerError o = true := (isServerError_iff o).2 ⟨t, p, htr.1, hflow⟩
+        rcases h.1 with (h1 | h1) | h1
+        · rw [hse] at h1; cases h1
+        · exact Or.inl ((isEnded_iff _).1 h1)
+        · right; simpa [clientData] using h1
+      | cons o' pre' =>
+        simp only [List.cons_append, List.cons.injEq] at htr
+        obtain ⟨ho, hrest⟩ := htr
+        subst ho
+        simp only [runSteps] at hrun
+        cases hstep : c02Step T R ph0 o with
+        | none => simp [hstep] at hrun
+        | some ph1 =>
+          simp only [hstep] at hrun
+          have h2 := h.2
+          simp only [hstep] at h2
+          have := (ih ph1 _).1 h2 pre' t p post ph hrest hflow hrun
+          simpa [hcd pre', List.append_assoc] using this
+    · intro h
+      simp only [errorsJustifiedFrom, Bool.and_eq_true, Bool.or_eq_true, Bool.not_eq_true', beq_iff_eq]
+      constructor
+      · cases hse : isServerError o with
+        | false => exact Or.inl (Or.inl rfl)
+        | true =>
+          obtain ⟨t, p, ho, hflow⟩ := (isServerError_iff o).1 hse
+          rcases h [] t p rest ph0 (by simp [ho]) hflow rfl with h1 | h1
+          · exact Or.inl (Or.inr ((isEnded_iff _).2 h1))
+          · exact Or.inr (by simpa [clientData] using h1)
+      · cases hstep : c02Step T R ph0 o with
+        | none => rfl
+        | some ph1 =>
+          simp only
+          apply (ih ph1 _).2
+          intro pre t p post ph htr hflow hrun
+          have := h (o :: pre) t p post ph (by simp [htr]) hflow (by simp [runSteps, hstep, hrun])
+          simpa [hcd pre, List.append_assoc] using this
+
+/-- what `serverErrorsJustified` says: whenever the server sends the client a packet that is neither
+DATA nor OACK, the C02 automaton has already reached `ended` on the events before it (client ERROR,
+invalid packet, retries exhausted), or the DATA packets sent before it are the whole ideal sequence
+(traces the automaton rejects beforehand are `c02Check`'s business) -/
+theorem serverErrorsJustified_iff (T R : Nat) (ideal : List Bytes) (tr : List Obs) :
+    serverErrorsJustified T R ideal tr = true ↔
+      ∀ pre t p post ph, tr = pre ++ Obs.send t 0 p :: post → isFlow p = false →
+        runSteps (c02Step T R) .idle pre = some ph → ph = .ended ∨ dataFirsts pre = ideal := by
+  unfold serverErrorsJustified dataFirsts
+  simpa using errorsJustifiedFrom_iff T R ideal tr .idle []
+
+/-- the model sends an ERROR packet of its own only in reply to the client's invalid packet or when
+the block counter overflows after the last ideal packet (conjunct of `c01Check_runTransfer`) -/
+theorem serverErrorsJustified_runTransfer (cfg : Cfg) (hw : WrapOK cfg.wrap) (rrq : Rrq) (content : Bytes)
+    (caps : List Nat) (sizeKnown : Bool) (script : List Ev) :
+    serverErrorsJustified (negOf cfg rrq (.stream content caps sizeKnown none)).timeout cfg.maxRetries
+      (idealPackets cfg.wrap 0
+        (idealBlocks rrq.netascii (negOf cfg rrq (.stream content caps sizeKnown none)).blockSize content))
+      (runTransfer cfg rrq (.stream content caps sizeKnown none) script) = true := by
+  have h := c01Check_runTransfer cfg hw rrq content caps sizeKnown script
+  unfold c01Check at h
+  simp only [Bool.and_eq_true] at h
+  exact h.2
 
 /-! ### block numbering -/
 
@@ -213,6 +337,66 @@ example : c01Check false 8 (some 0) 2048 1 [1,2,3,4,5,6,7,8, 9,10,11,12,13,14,15
 example : c01Check false 8 (some 0) 2048 1 [1,2,3,4,5,6,7,8,9]
     [.send 0 0 (dataPacket 1 [1,2,3,4,5,6,7,8]), .recv 1 1 0 (ackPacket 1),
      .send 1 0 (dataPacket 2 []), .recv 2 2 0 (ackPacket 2)] = false := by
+  decide
+
+/-! #### the server's own ERROR packets -/
+
+/-- an ERROR packet out of the blue after an acknowledged block with content left (what a server does
+that treats "wrap to 0" as "wrapping disabled", on a small scale) is rejected … -/
+example : c01Check false 8 (some 0) 2048 1 [1,2,3,4,5,6,7,8,9]
+    [.send 0 0 (dataPacket 1 [1,2,3,4,5,6,7,8]), .recv 1 1 0 (ackPacket 1),
+     .send 1 0 (errorPacket 3 [70]), .closeFile, .closeSocket] = false := by
+  decide
+
+/-- … by the new conjunct: the other three accept that trace (the ERROR packet makes it "aborted") -/
+example :
+    (dataFirsts [.send 0 0 (dataPacket 1 [1,2,3,4,5,6,7,8]), .recv 1 1 0 (ackPacket 1),
+        .send 1 0 (errorPacket 3 [70]), .closeFile, .closeSocket]).isPrefixOf
+      (idealPackets (some 0) 0 (idealBlocks false 8 [1,2,3,4,5,6,7,8,9])) = true ∧
+    sawAbort 2048 1 [.send 0 0 (dataPacket 1 [1,2,3,4,5,6,7,8]), .recv 1 1 0 (ackPacket 1),
+        .send 1 0 (errorPacket 3 [70]), .closeFile, .closeSocket] = true ∧
+    noPrematureGiveUp 2048 1 [.send 0 0 (dataPacket 1 [1,2,3,4,5,6,7,8]), .recv 1 1 0 (ackPacket 1),
+        .send 1 0 (errorPacket 3 [70]), .closeFile, .closeSocket] = true ∧
+    serverErrorsJustified 2048 1 (idealPackets (some 0) 0 (idealBlocks false 8 [1,2,3,4,5,6,7,8,9]))
+      [.send 0 0 (dataPacket 1 [1,2,3,4,5,6,7,8]), .recv 1 1 0 (ackPacket 1),
+        .send 1 0 (errorPacket 3 [70]), .closeFile, .closeSocket] = false := by
+  decide
+
+/-- the same while the block is still unacknowledged -/
+example : c01Check false 8 (some 0) 2048 1 [1,2,3,4,5,6,7,8,9]
+    [.send 0 0 (dataPacket 1 [1,2,3,4,5,6,7,8]), .send 1 0 err0, .closeFile, .closeSocket] = false := by
+  decide
+
+/-- an internal error before the first packet of a stream transfer (ERROR as the only datagram) is
+rejected, for non-empty and for empty content -/
+example : c01Check false 8 (some 0) 2048 1 [1] [.send 0 0 err0, .closeFile, .closeSocket] = false ∧
+    c01Check true 8 (some 0) 2048 1 [1] [.logException, .send 0 0 err0, .closeFile, .closeSocket] = false ∧
+    c01Check false 8 (some 0) 2048 1 [] [.send 0 0 err0, .closeFile, .closeSocket] = false := by
+  decide
+
+/-- the model's own ERROR reply to an invalid packet from the client (opcode 9 while block 2 is
+outstanding) is accepted: the automaton is in `ended` when it is sent -/
+def demoInvalid : Res End :=
+  processRequest C02.demoEnv [] ((transferBlocks false 8 [1,2,3,4,5,6,7,8,9] []).map some) 0
+    [.pkt 1 0 0 (ackPacket 1), .pkt 1 0 0 [0, 9]]
+
+example : demoInvalid.out = .invalid ∧ finish demoInvalid.out demoInvalid.now = [.send 2 0 err0] ∧
+    c01Check false 8 (some 0) 2048 1 [1,2,3,4,5,6,7,8,9]
+      (demoInvalid.obs ++ finish demoInvalid.out demoInvalid.now ++ [.closeFile, .closeSocket]) = true := by
+  decide
+
+/-- counter overflow on a small scale (the block loop entered at block 65534): with wrapping disabled
+the ideal sequence ends with block 65535 and the model's ERROR after it is justified; the very same
+trace is rejected when the configuration says "continue at block 0" -/
+def demoOverflow : Res End :=
+  sendData { timeout := 2048, maxRetries := 1, wrap := none } [some [1], some [2]] 65534 0
+    [.pkt 1 0 0 (ackPacket 65535)]
+
+example : demoOverflow.out = .overflow ∧
+    serverErrorsJustified 2048 1 (idealPackets none 65534 [[1], [2]])
+      (demoOverflow.obs ++ finish demoOverflow.out demoOverflow.now ++ [.closeFile, .closeSocket]) = true ∧
+    serverErrorsJustified 2048 1 (idealPackets (some 0) 65534 [[1], [2]])
+      (demoOverflow.obs ++ finish demoOverflow.out demoOverflow.now ++ [.closeFile, .closeSocket]) = false := by
   decide
 
 end Vinegar.C01
